@@ -70,11 +70,20 @@ def init(gen, st, tree):
     st.v[args[1]] = ("node", END)
     # the variable that receives <dict>.pop(<node>) is read after the loop: bind it now (role DP1) so the loop-head havoc covers it
     pops = [n_ for n_ in ast.walk(tree) if isinstance(n_, ast.Assign) and isinstance(n_.value, ast.Call) and isinstance(n_.value.func, ast.Attribute) and n_.value.func.attr == "pop"
-            and len(n_.value.args) == 1 and isinstance(n_.targets[0], ast.Name)]
+            and len(n_.value.args) == 1 and (isinstance(n_.targets[0], ast.Name) or (isinstance(n_.targets[0], ast.Tuple) and len(n_.targets[0].elts) == 2
+                                                                                      and all(isinstance(e_, ast.Name) for e_ in n_.targets[0].elts)))]
     if len(pops) != 1:
-        raise ExtractError("expected exactly one `<x> = <dict>.pop(<node>)`")
-    gen.roles["DP1"] = pops[0].targets[0].id
-    st.v[pops[0].targets[0].id] = ("pair", gen.fresh("popped_init", Pair))
+        raise ExtractError("expected exactly one `<x> = <dict>.pop(<node>)` (or `<v>, <flag> = <dict>.pop(<node>)`)")
+    tg = pops[0].targets[0]
+    init_pair = gen.fresh("popped_init", Pair)
+    if isinstance(tg, ast.Name):
+        gen.roles["DP1"] = tg.id
+        st.v[tg.id] = ("pair", init_pair)
+    else:   # the pair itself is the synthetic local $popped; the two targets name its components (re-tied after every loop-head havoc, see for_havoc)
+        gen.roles["DP1"] = "$popped"
+        st.v["$popped"] = ("pair", init_pair)
+        gen.unpack_names = (tg.elts[0].id, tg.elts[1].id)
+        st.v[tg.elts[0].id], st.v[tg.elts[1].id] = project(init_pair, 0), project(init_pair, 1)
     g = st.g
     g["OUT"], g["OUTLEN"] = z3.Array("OUT0", I, Node), z3.IntVal(0)
     g["t"], g["j"] = z3.IntVal(0), z3.IntVal(0)
@@ -197,8 +206,12 @@ def call(gen, st, name, v):
     if isinstance(v.func, ast.Attribute) and v.func.attr == "vjp" and len(v.args) == 1:
         nd = gen.expr(v.func.value, st)[1]
         a = v.args[0]
-        if isinstance(a, ast.Subscript) and isinstance(a.slice, ast.Constant) and a.slice.value == 0 and st.v.get(a.value.id, ("",))[0] == "pair":
+        arg = None
+        if isinstance(a, ast.Subscript) and isinstance(a.slice, ast.Constant) and a.slice.value == 0 and isinstance(a.value, ast.Name) and st.v.get(a.value.id, ("",))[0] == "pair":
             arg = Pair.v(st.v[a.value.id][1])
+        elif isinstance(a, ast.Name) and st.v.get(a.id, ("",))[0] == "val":
+            arg = st.v[a.id][1]          # a local naming the cotangent (e.g. from `g, flag = outgrads.pop(node)`)
+        if arg is not None:
             st.v[name] = ("ingrads", nd, arg)
             g = st.g
             g["app"] = z3.Store(g["app"], nd, z3.Select(g["app"], nd) + 1)
@@ -215,16 +228,21 @@ def setsub_call(gen, st, dname, key, callnode, event):
     if not (isinstance(callnode.func, ast.Name) and callnode.func.id == "add_outgrads" and len(callnode.args) == 2):
         raise ExtractError("unexpected call in dict store")
     a0, a1 = callnode.args
-    if not (isinstance(a0, ast.Call) and isinstance(a0.func, ast.Attribute) and a0.func.attr == "get" and isinstance(a0.func.value, ast.Name) and a0.func.value.id == dname and len(a0.args) == 1):
-        raise ExtractError("first argument of add_outgrads is not outgrads.get(<key>)")
-    k2 = gen.expr(a0.args[0], st)[1]
-    ing = gen.expr(a1, st)
     _, has, val = st.v[dname]
-    prev_has, prev_v = z3.Select(has, k2), Pair.v(z3.Select(val, k2))
+    if isinstance(a0, ast.Call) and isinstance(a0.func, ast.Attribute) and a0.func.attr == "get" and isinstance(a0.func.value, ast.Name) and a0.func.value.id == dname and len(a0.args) in (1, 2) \
+            and (len(a0.args) == 1 or (isinstance(a0.args[1], ast.Constant) and a0.args[1].value is None)):
+        k2 = gen.expr(a0.args[0], st)[1]
+        prev_has, prev_pair = z3.Select(has, k2), z3.Select(val, k2)
+    elif isinstance(a0, ast.Name) and st.v.get(a0.id, ("",))[0] == "opt" and len(st.v[a0.id]) == 6 and st.v[a0.id][4] == dname:
+        _, prev_has, _, prev_pair, _, k2 = st.v[a0.id]      # a local holding outgrads.get(<key>) / `outgrads[k] if k in outgrads else None` (snapshot at the read)
+    else:
+        raise ExtractError("first argument of add_outgrads is not outgrads.get(<key>) (directly or through a local)")
+    ing = gen.expr(a1, st)
+    prev_v = Pair.v(prev_pair)
     newv = z3.If(prev_has, PLUS(prev_v, ing[1]), ing[1])
     fl = gen.fresh("flag", B)
     # callee contract of add_outgrads (AO-own / AO-share, proved by E1b); its requires `flag => owned` is an obligation here
-    gen.oblige(f"requires:{event}:add_outgrads-prev-flag-implies-owned", st, z3.Implies(z3.And(prev_has, Pair.flag(z3.Select(val, k2))), owned(prev_v)))
+    gen.oblige(f"requires:{event}:add_outgrads-prev-flag-implies-owned", st, z3.Implies(z3.And(prev_has, Pair.flag(prev_pair)), owned(prev_v)))
     st.pc.append(z3.Implies(fl, owned(newv)))
     st.pc.append(z3.Implies(z3.Not(fl), z3.And(z3.Not(prev_has), newv == ing[1])))
     st.v[dname] = ("dict", z3.Store(has, key, True), z3.Store(val, key, Pair.mk(newv, fl)))
@@ -256,7 +274,11 @@ def for_init(gen, st, lid, s):
 
 
 def for_havoc(gen, st, lid, s):
-    pass
+    un = getattr(gen, "unpack_names", None)
+    if un and "$popped" in st.v:
+        p_ = gen.fresh("popped", Pair)          # `$popped` is assigned in the loop body (through the unpacking statement): havoc it with its components
+        st.v["$popped"] = ("pair", p_)
+        st.v[un[0]], st.v[un[1]] = project(p_, 0), project(p_, 1)
 
 
 def for_cond(gen, st, lid, s):
